@@ -335,6 +335,7 @@ pub fn check_chunker(case: &StreamCase) -> CaseResult {
         let lent = [range_of(&stream)];
         let mut arena = ByteArena::new();
         stream_in::prepare_arena_for(&mut arena, &case.delivery);
+        let mut other_arena = ByteArena::new();
         let mut reader = CyclicReader::new(&stream, &case.delivery);
         let mut chunker = StreamChunker::default();
         let mut held: Vec<(AnchoredSlice, usize, usize)> = vec![]; // slice, start, end in the stream
@@ -369,7 +370,8 @@ pub fn check_chunker(case: &StreamCase) -> CaseResult {
         for _ in 0..(2 * stream.len() + 16) {
             let before = owning_iovec::verif::retired_chunks().len();
             let block = case.delivery.block_size_at(passes.get()).unwrap_or(hcobs::DEFAULT_BLOCK_SIZE);
-            let c = chunker.pump(&mut arena, &mut reader, block).map_err(|e| Fail::new("chunker:io-error", e.to_string()))?;
+            let which = if case.delivery.two_arenas && passes.get() % 2 == 0 { &mut other_arena } else { &mut arena };
+            let c = chunker.pump(which, &mut reader, block).map_err(|e| Fail::new("chunker:io-error", e.to_string()))?;
             if owning_iovec::verif::retired_chunks().len() > before {
                 retired_midway = true;
             }
@@ -402,6 +404,7 @@ pub fn check_chunker(case: &StreamCase) -> CaseResult {
         arena.flush_cache();
         verify(&held)?;
         drop(arena);
+        drop(other_arena);
         verify(&held)?;
         let n_held = held.len();
         let mut order = case.drop_order.iter();
@@ -544,6 +547,9 @@ pub fn run(ctx: &Ctx, rep: &mut Report) {
     engine::drive(ctx, rep, "iovec-histories", iovec_sm::history(Mix::Memory, 60), cases, check_history);
     let cases = ctx.share(ctx.tier.pick(10_000, 200_000));
     engine::drive(ctx, rep, "iovec-general-histories", iovec_sm::history(Mix::General, 80), cases, check_history);
+    // Every third operation and every other drop on another thread (one thread at a time).
+    let cases = ctx.share(ctx.tier.pick(4_000, 100_000));
+    engine::drive(ctx, rep, "iovec-thread-handoff", iovec_sm::history(Mix::Memory, 60), cases, |h: &History| iovec_sm::with_thread_handoff(|| check_history(h)));
     let cases = ctx.share(ctx.tier.pick(10_000, 200_000));
     engine::drive(ctx, rep, "codec-anchored", anchored_codec_case(false), cases, check_codec);
     let cases = ctx.share(ctx.tier.pick(400, 50_000));
@@ -587,6 +593,10 @@ fn replay(_ctx: &Ctx, group: &str, case: &Value) -> CaseResult {
         "decoder-errors" => check_decoder_error(&parse_case::<DecErrCase>(case)?),
         "chunker-held-chunks" | "chunker-held-chunks-large" => check_chunker(&parse_case::<StreamCase>(case)?),
         "reader-kept-records" | "reader-kept-records-long" | "reader-kept-records-large" | "reader-block-aligned-tails" => check_reader(&parse_case::<StreamCase>(case)?),
+        "iovec-thread-handoff" => {
+            let h = parse_case::<History>(case)?;
+            iovec_sm::with_thread_handoff(|| check_history(&h))
+        }
         _ => check_history(&parse_case::<History>(case)?),
     }
 }
@@ -594,7 +604,7 @@ fn replay(_ctx: &Ctx, group: &str, case: &Value) -> CaseResult {
 pub fn def() -> PropDef {
     PropDef {
         id: "C05",
-        rule: "All groups run single-threaded with the owning_iovec verif hook: a registry of live arena chunks, and quarantine (a released chunk's storage is poisoned with 0xFC and kept mapped until the case ends, so a stale slice can neither alias a newer chunk nor still hold its bytes). iovec-histories: C03's interpreter with a clone / take / drop / arena-swap / held-AnchoredSlice heavy mix (split_at, skip_prefix, drop_suffix, clone, take, drop, push into an iovec); after every operation every slice reachable through any live iovec's read side and every held AnchoredSlice must lie wholly inside the caller-owned pool or wholly inside one live chunk, never intersect a released chunk, hold the model's bytes; owned slices of one iovec and results of distinct read_n calls must be pairwise disjoint (except where the harness itself pushed two clones of one AnchoredSlice). codec-anchored: Encoder and Decoder fed mostly through read_n + encode_anchored / decode_anchored and drained partially after every call; every consumable slice is address- and content-checked against the reference output. decoder-errors: a Decoder is fed (all input methods; arena-read pieces from its own arena or from a separate one) a valid encoding whose k-th chunk header is overwritten with 253..255; after the error the separate arena is dropped and the decoder's arena is flushed / swapped for a fresh one / taken with take_iovec, and everything still reachable must be live and a prefix of the payload. chunker-held-chunks: every Data chunk of a StreamChunker run is held to the end and re-verified after every pump, after flush_cache and after dropping the arena, then released in a generated order. reader-kept-records: returned records are address- and content-checked and clones of records are kept across later next_record_bytes calls and after dropping the reader. The -large variants of the chunker and reader groups use a few records of up to 140000 bytes (sometimes 0.5..1.3 MB: more than an I/O block and than the arena's largest chunk). Non-trivial: a chunk was released during the case while other iovecs / anchors / held chunks were still alive, or an anchored push was partially consumed, or (streams) >= 3 chunks held / a record clone kept across >= 1 later record. Distinct: hash of the serialised case.",
+        rule: "All groups run single-threaded with the owning_iovec verif hook: a registry of live arena chunks, and quarantine (a released chunk's storage is poisoned with 0xFC and kept mapped until the case ends, so a stale slice can neither alias a newer chunk nor still hold its bytes). iovec-histories: C03's interpreter with a clone / take / drop / arena-swap / held-AnchoredSlice heavy mix (split_at, skip_prefix, drop_suffix, clone, take, drop, push into an iovec); after every operation every slice reachable through any live iovec's read side and every held AnchoredSlice must lie wholly inside the caller-owned pool or wholly inside one live chunk, never intersect a released chunk, hold the model's bytes; owned slices of one iovec and results of distinct read_n calls must be pairwise disjoint (except where the harness itself pushed two clones of one AnchoredSlice). iovec-thread-handoff: the same histories with every third operation and every other drop executed on a fresh thread, strictly one thread at a time (the types are Send). codec-anchored: Encoder and Decoder fed mostly through read_n + encode_anchored / decode_anchored and drained partially after every call; every consumable slice is address- and content-checked against the reference output. decoder-errors: a Decoder is fed (all input methods; arena-read pieces from its own arena or from a separate one) a valid encoding whose k-th chunk header is overwritten with 253..255; after the error the separate arena is dropped and the decoder's arena is flushed / swapped for a fresh one / taken with take_iovec, and everything still reachable must be live and a prefix of the payload. chunker-held-chunks: every Data chunk of a StreamChunker run is held to the end and re-verified after every pump, after flush_cache and after dropping the arena, then released in a generated order. reader-kept-records: returned records are address- and content-checked and clones of records are kept across later next_record_bytes calls and after dropping the reader. The -large variants of the chunker and reader groups use a few records of up to 140000 bytes (sometimes 0.5..1.3 MB: more than an I/O block and than the arena's largest chunk). Non-trivial: a chunk was released during the case while other iovecs / anchors / held chunks were still alive, or an anchored push was partially consumed, or (streams) >= 3 chunks held / a record clone kept across >= 1 later record. Distinct: hash of the serialised case.",
         assumptions: &[
             "lifetime misuse that needs `unsafe` on the caller's side is out of scope (the harness pushes an anchor right after its slice, as Encoder::encode_anchored does)",
             "allocator address reuse is removed by quarantine rather than explored",
